@@ -65,7 +65,7 @@ def run(rep, tier="quick", replay=None, evidence_dir=None):
                     continue
                 if spc is not None and (spc["value"] != "*" or v not in spc.get("except", [])):
                     want = sorted(spc["enc"])
-                    rep.ob("C07.R1", inst + " is written in its listed special form (%s)" % spc["why"], ep == want, "writer paths %s, listed %s" % (ep, want), loc)
+                    rep.ob("C07.R1", inst + " is written in its listed special form (%s)" % spc["why"], bool(ep) and all(p_ in want for p_ in ep), "writer paths %s, readable forms listed %s" % (ep, want), loc)
                     continue
                 if ds in ("Array", "Map"):
                     # structural agreement is C01.R1's obligation for (Array, Array) / (Map, Map)
@@ -188,6 +188,28 @@ def run(rep, tier="quick", replay=None, evidence_dir=None):
         rep.ob("C07.R4", "find_schema_with_known_schemata resolves the value against the branch for both Map and Array branches", {"Map", "Array"} <= kinds,
                "kinds re-checked: %s. An array (or map) whose items do not fit the branch is accepted by validation, and the writers emit bytes for it before the item fails (or silently corrupt ones)" % sorted(kinds), fs.loc())
 
+    # ---------------- R5 abandoned trial encodings
+    rep.rule("C07.R5", "a failed trial encoding leaves no bytes: the scratch buffer is cleared on the failure edge before it is used again")
+    import trial
+    tr = [x for x in trial.scan(prog) if x["swallowed"]]
+    for x in tr:
+        rep.ob("C07.R5", "%s: %s(.., &mut %s) failed -> buffer reset before reuse" % (x["fn"], x["callee"], x["buffer"]), x["ok"],
+               x["detail"] + "; the bytes of the abandoned attempt would be written in front of the next attempt", x["loc"])
+    rep.floor("C07.R5", "trial encodings into a reused scratch buffer (encode_internal: bare record for a union)", len(tr), 1)
+
+    # ---------------- R6 reusable write buffers are restored on every exit (imported)
+    rep.rule("C07.R6", "a writer's reusable buffer holds nothing of an earlier value when the next accepted value is encoded (C03.R1, C18.R3 instances)")
+    import c03
+    import c18
+    n6 = 0
+    for mod, pid_, rules_ in ((c03, "C03", ("C03.R1",)), (c18, "C18", ("C18.R3",))):
+        sub = common.Report(pid_, tier, 0)
+        mod.run(sub, tier=tier, collect_only=True)
+        for o in sub.obligations:
+            if o["rule"] in rules_:
+                n6 += 1
+                rep.ob("C07.R6", "[%s] %s" % (o["rule"], o["instance"]), o["ok"], o["detail"], o["loc"])
+    rep.floor("C07.R6", "imported rollback obligations", n6, 8)
     rep.floor("C07", "obligations", len(rep.obligations), 100)
     rep.not_decided = ["that the bytes decode to the value's canonical representation for concrete values (union branch chosen, widened number)", "(Map, Record) - see known findings"]
     return common.finish(rep, level="other",
